@@ -1,5 +1,5 @@
 """C16 -- Reconnector keeps retrying until stopped and is silent afterwards."""
-import glob, json, os
+import glob, json, math, os
 from fractions import Fraction
 from harness import common
 
@@ -16,23 +16,28 @@ def coq_event(ev):
             "reset": "Reset", "stop": "Stop"}[n]
 
 
-def close(f, ns):
-    """real float seconds vs model floor(nanoseconds)"""
-    return abs(f * 1e9 - ns) <= 1.0 + 1e-9 * abs(ns)
+def ns(f):
+    """seconds (double) -> nanoseconds, the timer encoding of Reconnector.obs (None -> -1, negatives shifted)"""
+    return int(math.floor(f * 1e9))
 
 
-def same(model, real):
-    mf, mo, md, mt = model
-    rf, ro, rd, rt, _ = real
-    if mf != rf or list(mo) != list(ro):
-        return False
-    if not close(rd, md):
-        return False
-    if rt is None:
-        return mt == -1
-    if mt == -1:
-        return False
-    return close(rt, mt if mt >= 0 else mt + 1)
+def pack(o):
+    """observation of c16_impl.run_sequence -> the (flags+outputs, delay ns, timer ns) triple of Reconnector.pack_obs"""
+    flags, outs, delay, timer = o[:4]
+    code = 0
+    for c in outs:
+        code = code * 8 + c
+    if timer is None:
+        t = -1
+    else:
+        t = ns(timer)
+        if t < 0:
+            t -= 1
+    return (flags + 4096 * code, ns(delay), t)
+
+
+def coq_triple(t):
+    return "(%s, %s, %s)" % tuple(common.coq_Z(x) for x in t)
 
 
 def run(ctx):
@@ -143,45 +148,46 @@ def run(ctx):
 
 
 def correspond(ctx, depth, nodes, seqs):
+    """the comparison runs inside Coq (Reconnector.first_mismatch): the expected observations are written into the
+    case file, the model is evaluated with vm_compute, and only the index of the first disagreement comes back"""
     from harness import c16_impl as impl
-    body = "Eval vm_compute in dfs %d 0 init_state.\n" % depth
+    body = "Eval vm_compute in first_mismatch 0%%Z (map pack_obs (dfs %d 0 init_state)) %s.\n" % (
+        depth, common.coq_list([coq_triple(pack(o)) for _, o in nodes]))
     chunks = [seqs[i:i + 100] for i in range(0, len(seqs), 100)]
     for ch in chunks:
-        body += "Eval vm_compute in map (trace init_state) %s.\n" % common.coq_list(
-            [common.coq_list([coq_event(e) for e in evs]) for evs, _ in ch])
+        body += ("Eval vm_compute in map (fun c => first_mismatch 0%%Z (map pack_obs (trace init_state (fst c))) (snd c)) %s.\n"
+                 % common.coq_list(["(%s, %s)" % (common.coq_list([coq_event(e) for e in evs]),
+                                                  common.coq_list([coq_triple(pack(o)) for o in obs]))
+                                    for evs, obs in ch]))
     try:
         vals = ctx.coq_eval("C16_cases", body, requires=REQ, timeout=1500)
     except common.CoqEvalError as e:
         ctx.fail("correspondence-broken", "the model could not be evaluated: " + str(e)[-1500:], has_input=False)
         return
-    tree = vals[0]
     nbad = 0
-    ctx.extra["model_tree_nodes"] = len(tree)
-    for i, (path, o) in enumerate(nodes):
-        if i >= len(tree) or not same(tree[i], o):
-            nbad += 1
-            m = tree[i] if i < len(tree) else None
-            ctx.fail("correspondence/enumeration", "model and implementation disagree at node %d of the enumeration, events %s: "
-                     "model (flags, outputs, delay ns, timer ns) = %r, implementation (flags, outputs, delay s, timer s) = %r"
-                     % (i, " ".join(e[0] for e in path), m, o[:4]),
-                     replay=dict(events=[impl.ev_json(e) for e in path], model=m, impl=list(o[:4])), has_input=False)
-            break       # later nodes are misaligned once the trees differ
-        ctx.traces += 1
-    if not nbad and len(tree) != len(nodes):
+    idx, m = vals[0]
+    if idx == -1:
+        ctx.traces += len(nodes)
+    else:
         nbad += 1
-        ctx.fail("correspondence/enumeration", "the model permits %d sequences of length <= %d, the implementation %d"
-                 % (len(tree), depth, len(nodes)), has_input=False)
+        ctx.traces += idx
+        if idx < len(nodes):
+            path, o = nodes[idx]
+            ctx.fail("correspondence/enumeration", "model and implementation disagree at node %d of the enumeration of all "
+                     "permitted sequences, events [%s]: model (flags+4096*outputs, delay ns, timer ns) = %r, implementation %r "
+                     "= packed %r" % (idx, " ".join(e[0] for e in path), m, o[:4], pack(o)),
+                     replay=dict(events=[impl.ev_json(e) for e in path], model=repr(m), impl=list(pack(o))), has_input=False)
+        else:
+            ctx.fail("correspondence/enumeration", "the model permits more sequences of length <= %d than the implementation "
+                     "(%d); first extra model observation %r" % (depth, len(nodes), m), has_input=False)
     flat = [t for v in vals[1:] for t in v]
-    for (evs, obs), mt in zip(seqs, flat):
-        good = len(mt) == len(obs) and all(same(m, o) for m, o in zip(mt, obs))
-        if good:
+    for (evs, obs), (k, m) in zip(seqs, flat):
+        if k == -1:
             ctx.traces += 1
             continue
         nbad += 1
-        k = next((j for j, (m, o) in enumerate(zip(mt, obs)) if not same(m, o)), min(len(mt), len(obs)))
-        ctx.fail("correspondence/trace", "model and implementation disagree at event %d of %s: model %r, implementation %r"
-                 % (k, " ".join(e[0] for e in evs[:k + 1]), mt[k] if k < len(mt) else None,
-                    obs[k][:4] if k < len(obs) else None),
+        ctx.fail("correspondence/trace", "model and implementation disagree at event %d of [%s]: model %r, implementation %r"
+                 % (k, " ".join(e[0] for e in evs[:k + 1]), m, pack(obs[k]) if k < len(obs) else None),
                  replay=dict(events=[impl.ev_json(e) for e in evs], at=k), has_input=False)
     ctx.extra["correspondence_cases"] = len(nodes) + len(seqs)
     ctx.extra["correspondence_disagreements"] = nbad
